@@ -17,6 +17,7 @@ import sys
 from vlib import core, histgen, histmodel
 
 ID = "C12"
+READY = True
 LEVEL = "exploration"
 RULE = ("history mode: random histories of 15-45 steps (all change kinds, nested sets, unicode / multi-line / "
         "CRLF / CR contents, selective undo/redo, rope-computed module renames) with a close+reopen after a "
